@@ -284,7 +284,8 @@ func After[T any](fs ...Future[T]) Future[struct{}] {
 	return New(func() (Result[struct{}], bool) {
 		ok := true
 
-		for _, f := range fs {
+		for i := range fs {
+			f := &fs[i]
 			f.Poll()
 			if f.IsReady() {
 				if !f.Result().IsOk() {
